@@ -25,6 +25,8 @@ import traceback
 
 import numpy as np
 
+from . import history
+
 COPY_FALSE_OK = {'threshold_absolute', 'threshold_proportional', 'weight_conversion', 'binarize',
                  'normalize', 'invert', 'autofix', 'logtransform',
                  # documented "copy=False: add edges directly to the input matrix"
@@ -104,6 +106,7 @@ class Recorder(object):
         self.case_errors = []
         self.schedules = set()
         self.skips = {}
+        self.history = None     # what the history layer did around the last depth-0 call
 
     def check(self, prop, func, clause, ok, detail=None, classes=()):
         key = (prop, func, clause)
@@ -116,7 +119,7 @@ class Recorder(object):
             if self.skips[k2] <= 3 and len(self.witness) < self.MAX_WITNESS:
                 self.witness.append({'property': prop, 'function': func, 'clause': clause,
                                      'classes': list(classes), 'detail': jsonable(detail),
-                                     'case': self.case, 'workload': self.prop})
+                                     'case': self.case, 'workload': self.prop, 'history': self.history})
         return ok
 
     def skip(self, prop, func, clause):
@@ -199,6 +202,23 @@ def _wrap(name, fn):
                     bound.apply_defaults()
                 except TypeError:
                     bound = None
+            # ---- hostile caller history (history.py): aborted re-run of the previous call, then the same
+            # argument objects as last time, edited in place
+            hist = history.HIST if (history.ENABLED and bound is not None) else None
+            used = []
+            hn = 0
+            if hist is not None:
+                hn = hist.n.get(name, 0)
+                ab = hist.precall(name, fn)
+                hist.n[name] = hn + 1
+                used = hist.substitute(name, bound)
+                args, kwargs = bound.args, bound.kwargs
+                if bound.arguments.get('copy', True) is False:
+                    hist.last.pop(name, None)
+                else:
+                    hist.last[name] = (args, kwargs)
+                REC.history = {'function': name, 'call_no': hn, 'aborted_precall_at_line_event': ab,
+                               'argument_buffers_reused': len(used), 'result_mode': 'poison' if hn % 2 else 'stable'}
             arrs = []
             if bound is not None:
                 for k, v in bound.arguments.items():
@@ -251,12 +271,47 @@ def _wrap(name, fn):
                     pyrandom.setstate(g_py)
             if exc is not None:
                 raise exc
+            if hist is not None:
+                result = _history_after(hist, name, hn, used, arrs, result)
             return result
         finally:
             _tls.depth = 0
 
     wrapper.__bctmon_wrapped__ = fn
     return wrapper
+
+
+def _history_after(hist, name, hn, used, arrs, result):
+    """stability re-check of earlier results; the caller gets a copy, the original is kept (even calls) or
+    overwritten (odd calls)"""
+    res_arrays = hist.arrays_of(result, [])
+    if used and res_arrays:
+        hist.release_aliased(used, res_arrays)
+    lst = hist.kept.get(name, ())
+    for dg, kept, no in (lst if hn % 8 == 0 else lst[hn % len(lst):hn % len(lst) + 1] if lst else ()):
+        hist.stats['stability_rechecks'] += 1
+        ok = digest(*kept) == dg
+        REC.check(REC.prop or 'C13', name, 'earlier_result_unchanged', ok,
+                  None if ok else {'function': name, 'result_of_call_no': no, 'checked_after_call_no': hn,
+                                   'now': [a.copy() for a in kept]})
+    if not res_arrays:
+        return result
+    for r in res_arrays:
+        if type(r) is not np.ndarray or not r.flags.writeable:
+            return result
+        for p, a in arrs:
+            if r is a or np.may_share_memory(r, a):
+                return result          # copy=False style aliasing: the array is the caller's own
+    out = hist.deep_copy(result)
+    if hn % 2:
+        for r in res_arrays:
+            if hist.scribble(r):
+                hist.stats['poisoned_results'] += 1
+    else:
+        lst = hist.kept.setdefault(name, [])
+        lst.append((digest(*res_arrays), res_arrays, hn))
+        del lst[:-history.KEEP]
+    return out
 
 
 _installed = {}
